@@ -392,7 +392,8 @@ def judge(name, data, text, L, kind, res, part):
 
 
 def work(chunk_id, payload):
-    seed, tier, ncases, binary, workroot, seeds, exhaustive_trunc = payload
+    seed, tier, ncases, binary, workroot, seeds, exhaustive_trunc, membin, \
+        nmem = payload
     rng = np.random.default_rng([seed, chunk_id, 99])
     part = dict(evaluations=0, counters={}, maxima={}, distinct=set(),
                 samples=[], violations=[], inconclusive=[], harness_errors=[])
@@ -451,6 +452,17 @@ def work(chunk_id, payload):
             part["evaluations"] += 1
         if len(part["samples"]) < 1 and len(d) < 400:
             part["samples"].append(dict(seed_file=nm, bytes=d.decode("latin-1")))
+    # memcheck sample (plain build): uninitialised-value use in the parsers
+    if membin and nmem > 0:
+        sub = cases[-nmem:]
+        mres = R.run_cases(membin, sub, wd + "m", timeout=3600, watchdog=300,
+                           valgrind=True)
+        for cid, text in sub:
+            part["counters"]["memcheck_inputs"] = part["counters"].get(
+                "memcheck_inputs", 0) + 1
+            v, inc = R.standard_violations(mres[cid], text, PROP)
+            part["violations"] += [x for x in v
+                                   if x["key"].startswith("memcheck:")]
     return part
 
 
@@ -468,8 +480,10 @@ def main():
     nchunks = 16 if chk.tier == "quick" else 128
     per = max(1, total // nchunks)
     trunc = 8 if chk.tier == "quick" else 1
+    membin = chk.build("plain")
+    nmem = 12 if chk.tier == "quick" else 80
     payloads = [(chk.seed, chk.tier, per, binary, chk.workroot, seeds,
-                 trunc if i < 16 else 0) for i in range(nchunks)]
+                 trunc if i < 16 else 0, membin, nmem) for i in range(nchunks)]
     for part in R.pmap(work, payloads):
         chk.merge(part)
     chk.counters["seed_files"] = len(seeds)
